@@ -1951,6 +1951,128 @@ void apply_mutation(const Op& op)
             d.replace(a.val_b, a.val_e - a.val_b, ext[op.uarg(1) % (sizeof(ext) / sizeof(ext[0]))]);
         }
     }
+    else if(n == "elem")
+    {
+        // structure-aware edits on whole XML elements of the stored schema: delete, duplicate, move to
+        // another place (element moves across nesting levels), rename the tag (a <field> becomes a <group>,
+        // a <type> a <composite>, ...), wrap in a new parent, or graft an element of another corpus schema.
+        struct El
+        {
+            size_t b, e, name_b, name_e; // [b,e) whole element incl. end tag; tag name
+            bool selfclosing;
+        };
+        auto index = [](const std::string& x) {
+            std::vector<El> els;
+            std::vector<size_t> open; // indices into els
+            size_t i = 0;
+            while((i = x.find('<', i)) != std::string::npos)
+            {
+                if(x.compare(i, 4, "<!--") == 0)
+                {
+                    size_t c = x.find("-->", i);
+                    if(c == std::string::npos) break;
+                    i = c + 3;
+                    continue;
+                }
+                if(i + 1 < x.size() && (x[i + 1] == '?' || x[i + 1] == '!'))
+                {
+                    size_t c = x.find('>', i);
+                    if(c == std::string::npos) break;
+                    i = c + 1;
+                    continue;
+                }
+                size_t gt = i;
+                bool inq = false;
+                for(gt = i; gt < x.size(); gt++)
+                {
+                    if(x[gt] == '"') inq = !inq;
+                    if(x[gt] == '>' && !inq) break;
+                }
+                if(gt >= x.size()) break;
+                if(x[i + 1] == '/')
+                {
+                    if(!open.empty())
+                    {
+                        els[open.back()].e = gt + 1;
+                        open.pop_back();
+                    }
+                }
+                else
+                {
+                    El el;
+                    el.b = i;
+                    el.name_b = i + 1;
+                    el.name_e = x.find_first_of(" \t\r\n/>", i + 1);
+                    el.selfclosing = gt > 0 && x[gt - 1] == '/';
+                    el.e = gt + 1;
+                    els.push_back(el);
+                    if(!el.selfclosing) open.push_back(els.size() - 1);
+                }
+                i = gt + 1;
+            }
+            return els;
+        };
+        std::vector<El> els = index(d);
+        if(els.size() < 3) return;
+        const long kind = op.arg(0);
+        // never the root element itself for whole-element edits
+        const El& a = els[1 + (size_t)(op.uarg(1) % (els.size() - 1))];
+        const std::string text = d.substr(a.b, a.e - a.b);
+        if(kind == 0)
+            d.erase(a.b, a.e - a.b);
+        else if(kind == 1)
+            d.insert(a.e, "\n" + text);
+        else if(kind == 2)
+        {
+            // move: cut, then paste right behind (or, for containers, just inside) some other element
+            const El& t = els[1 + (size_t)(op.uarg(2) % (els.size() - 1))];
+            if(t.b >= a.b && t.b < a.e) return; // target inside the moved element
+            size_t at = (op.uarg(3) & 1) && !t.selfclosing ? d.find('>', t.b) + 1 : t.e;
+            if(at > a.b)
+            {
+                d.insert(at, "\n" + text);
+                d.erase(a.b, a.e - a.b);
+            }
+            else
+            {
+                d.erase(a.b, a.e - a.b);
+                d.insert(at, "\n" + text);
+            }
+        }
+        else if(kind == 3)
+        {
+            static const char* tags[] = {"field", "group", "data", "type", "composite", "enum", "set", "ref", "validValue", "choice", "sbe:message", "message", "types"};
+            const std::string nt = tags[op.uarg(2) % (sizeof(tags) / sizeof(tags[0]))];
+            const std::string on = d.substr(a.name_b, a.name_e - a.name_b);
+            std::string t2 = text;
+            t2.replace(1, on.size(), nt);
+            if(!a.selfclosing)
+            {
+                size_t c = t2.rfind("</");
+                if(c != std::string::npos) t2.replace(c + 2, t2.size() - c - 3, nt);
+            }
+            d.replace(a.b, a.e - a.b, t2);
+        }
+        else if(kind == 4)
+        {
+            static const char* wraps[] = {"<composite name=\"wrapC\">", "<group name=\"wrapG\" id=\"77\" dimensionType=\"groupSizeEncoding\">", "<types>", "<sbe:message name=\"wrapM\" id=\"7777\">", "<enum name=\"wrapE\" encodingType=\"uint8\">", "<set name=\"wrapS\" encodingType=\"uint8\">"};
+            static const char* wrape[] = {"</composite>", "</group>", "</types>", "</sbe:message>", "</enum>", "</set>"};
+            const size_t w = (size_t)(op.uarg(2) % 6);
+            d.replace(a.b, a.e - a.b, std::string(wraps[w]) + text + wrape[w]);
+        }
+        else
+        {
+            // graft: an element of another corpus schema, pasted behind / inside an element of this one
+            auto o = g_corpus.files.find(op.sarg(1));
+            if(o == g_corpus.files.end()) return;
+            std::vector<El> oe = index(o->second);
+            if(oe.size() < 3) return;
+            const El& src = oe[1 + (size_t)(op.uarg(2) % (oe.size() - 1))];
+            const std::string g2 = o->second.substr(src.b, src.e - src.b);
+            const size_t at = (op.uarg(3) & 1) && !a.selfclosing ? d.find('>', a.b) + 1 : a.e;
+            d.insert(at, "\n" + g2);
+        }
+    }
     else if(n == "attrcopy")
     {
         // transplant one  name="value"  pair into another element (lost / misdirected edit): the source is
@@ -3109,7 +3231,7 @@ Plan gen_c09(u64 seed, const std::string& tier)
     st.s = {s};
     p.ops.push_back(st);
     // swarm: one family of environment configuration dominates a run
-    const int family = (int)fl.below(14);
+    const int family = (int)fl.below(17);
     auto mut = [&](const std::string& name, std::vector<long long> a, std::vector<std::string> extra = {}) {
         Op m;
         m.name = name;
@@ -3212,6 +3334,18 @@ Plan gen_c09(u64 seed, const std::string& tier)
             default: mut("mut.lineswap", {(long long)fl.below(100000), (long long)fl.below(100000)}); break;
             }
         }
+    }
+    else if(family >= 14)
+    {
+        // structure-aware edits on whole elements: delete / duplicate / move / rename tag / wrap / graft
+        p.set("mode", "element-edit");
+        int n = (int)fl.range(1, 2);
+        for(int i = 0; i < n; i++)
+        {
+            const long kind = (long)fl.below(6);
+            mut("mut.elem", {kind, (long long)fl.below(100000), (long long)fl.below(100000), (long long)fl.below(2)}, kind == 5 ? std::vector<std::string>{g_corpus.names[fl.below(g_corpus.names.size())]} : std::vector<std::string>{});
+        }
+        if(fl.chance(1, 4)) mut("mut.retarget", {(long long)fl.below(100000), (long long)fl.below(100000)});
     }
     else if(family == 13)
     {
